@@ -41,6 +41,9 @@ type c16item struct{ name, typ, value, ref string }
 type c16proc struct {
 	props, headers []c16item
 	results, outs  []string
+	// declared type of a result field (absent: "string", what the schema gives an undeclared one). The declaration of a
+	// RESULT field does not convert anything: whatever the handler answers is stored as it is.
+	resTypes map[string]string
 }
 
 func (p c16proc) xml() string {
@@ -70,7 +73,11 @@ func (p c16proc) xml() string {
 	if len(p.results) > 0 {
 		sb.WriteString("    <olive:results>\n")
 		for _, r := range p.results {
-			fmt.Fprintf(&sb, "     <olive:field name=\"%s\" type=\"string\"/>\n", html.EscapeString(r))
+			ty := p.resTypes[r]
+			if ty == "" {
+				ty = "string"
+			}
+			fmt.Fprintf(&sb, "     <olive:field name=\"%s\" type=\"%s\"/>\n", html.EscapeString(r), ty)
 		}
 		sb.WriteString("    </olive:results>\n")
 	}
@@ -528,6 +535,15 @@ func c16engine(out *rec.Out, rng *rec.Rng, tier string, stats map[string]int) {
 	for i := 0; i < n; i++ {
 		var q c16proc
 		q.results = []string{"a", "r", "shared"}
+		// all declared item types x all supplied dynamic types: half of the cases declare their result fields with a type
+		// drawn from every item type (the value answered is drawn independently of it)
+		if i%2 == 1 {
+			q.resTypes = map[string]string{}
+			for _, r := range q.results {
+				q.resTypes[r] = []string{"string", "integer", "float", "boolean", "array", "object"}[rng.Intn(6)]
+				stats["result_field_type_"+q.resTypes[r]]++
+			}
+		}
 		q.outs = []string{"o"}
 		refs := []string{"$a.x", "$a.y.0", "$cfg.k", "$b.zz", "$é.k", "$missing.x", "$a", "a.x", "$v1.deep.k"}
 		for j := 0; j < 1+rng.Intn(4); j++ {
